@@ -486,9 +486,7 @@ if not getattr(verify, "_c05_check", False):
             if s.check() == z3.unsat:
                 _check.last_how = "qf-nlsat"
                 return "unsat", int((time.time() - t0) * 1000), s, None
-        r = _orig_check(hyps, goal, timeout_ms, want_model=want_model, axioms=axioms)
-        _check.last_how = getattr(_orig_check, "last_how", getattr(_check, "last_how", None))
-        return r
+        return _orig_check(hyps, goal, timeout_ms, want_model=want_model, axioms=axioms)   # (sets verify.check.last_how itself)
 
     verify.check = _check
     verify._c05_check = True
